@@ -429,7 +429,7 @@ func init() {
 			}
 		}
 		sstFactsLate("removeFormula", "if c.F != nil && c.Vm == nil {", "f.deleteCalcChain(sheetID, c.R)", "c.F = nil")
-		sstFactsLate("SetCellFormula", "if formula == \"\" {", "return f.deleteCalcChain(f.getSheetID(sheet), cell)")
+		sstFactsLate("SetCellFormula", "if formula == \"\" {", "return f.deleteCalcChain(f.getSheetID(sheet), c.R)")
 		// shared strings: how the index of a new item is computed
 		sstFacts := func(fn string, pats ...string) {
 			fd := funcDecl("File", fn)
